@@ -143,7 +143,9 @@ func hc07Decide(nEntries, nItems int, history bool) {
 		// an earlier request of the same client for the same account and another (or the same)
 		// operation: the decision must not depend on what was asked before
 		prior := []string{"Access account", "Sign", hc07Op}[vsym.Choose("prior-op", 3)]
-		svc.Check(ctx, &checker.Credentials{Client: "client1"}, wallet+"/"+account, prior)
+		// ... for the same account or for another account of the same wallet
+		priorAccount := []string{account, "zzz", "acc2"}[vsym.Choose("prior-account", 3)]
+		svc.Check(ctx, &checker.Credentials{Client: "client1"}, wallet+"/"+priorAccount, prior)
 		vsym.Reach("asked-before")
 	}
 	got := svc.Check(ctx, &checker.Credentials{Client: "client1"}, wallet+"/"+account, hc07Op)
